@@ -24,6 +24,73 @@ type c18Case struct {
 	Race      []string `json:"racing_actions"` // performed concurrently: stop | complete | event | error_msg | drop_upstream | terminate | disconnect | malformed | incomplete | unknown_type | stop_unknown | start_duplicate_id
 	Warmup    int      `json:"events_before"`
 	Repeat    int      `json:"repetitions"`
+	// Heartbeat: instead of a race, one event whose frame is held back on the wire (between header and payload)
+	// for longer than the heartbeat period: the keep-alive must wait for the frame to be complete
+	Heartbeat bool `json:"heartbeat_during_a_stalled_write,omitempty"`
+}
+
+// runHeartbeat: every frame the client reads must be one whole message, a data frame and at least one ka among them
+func runHeartbeat(c c18Case) string {
+	w := subWorld(c.WorldSeed)
+	r, err := NewRig(w, RigConfig{Subs: true, StallMs: 4400})
+	if err != nil || r.Merged.Subscription == nil {
+		return "skip: no subscriptions in this world"
+	}
+	defer r.Close()
+	rng := hx.NewRand(c.WorldSeed + 7)
+	cl, err := fake.DialGateway(r.GWSrv.URL)
+	if err != nil {
+		return "cannot connect: " + err.Error()
+	}
+	defer cl.Drop()
+	cl.Send(map[string]interface{}{"type": requests.SubConnectionInit})
+	if f, ok := cl.Next(3 * time.Second); !ok || f.Msg["type"] != requests.SubConnectionAck {
+		return fmt.Sprintf("no connection_ack: %+v", f)
+	}
+	op, field, ok := simpleSubOp(w, r, rng)
+	if !ok {
+		return "skip: no owner"
+	}
+	payload := map[string]interface{}{"query": op.Query}
+	if op.Variables != nil {
+		payload["variables"] = op.Variables
+	}
+	if op.OperationName != "" {
+		payload["operationName"] = op.OperationName
+	}
+	cl.Send(map[string]interface{}{"type": requests.SubStart, "id": "a-subscription-with-a-long-identifier-so-that-the-frame-is-long", "payload": payload})
+	up := r.Ups[w.SubOwner[field]].Accept(3 * time.Second)
+	if up == nil {
+		return "subscription not started upstream: " + op.Query
+	}
+	owner := r.Services[w.SubOwner[field]]
+	data, errs, _ := owner.Answer(up.Start, 0)
+	if errs != nil {
+		return "skip: owner rejects"
+	}
+	up.Data(data, nil)
+	gotData, gotKA := false, false
+	deadline := time.After(9 * time.Second)
+	for !(gotData && gotKA) {
+		select {
+		case f := <-cl.Frames:
+			if f.BadJSON {
+				return fmt.Sprintf("a frame held back on the wire was torn: the client read %q", shortStr(f.Raw, 200))
+			}
+			if f.Close {
+				return "the client's websocket stream broke while a frame was held back on the wire across a heartbeat: " + f.Err
+			}
+			switch f.Msg["type"] {
+			case requests.SubData:
+				gotData = true
+			case requests.SubConnectionKeepAlive:
+				gotKA = true
+			}
+		case <-deadline:
+			return fmt.Sprintf("within 9s: data frame received=%v, keep-alive received=%v", gotData, gotKA)
+		}
+	}
+	return ""
 }
 
 func simpleSubOp(w *gen.World, r *Rig, rng *rand.Rand) (gen.GenOp, string, bool) {
@@ -240,6 +307,13 @@ func driveC18(seed int64, tier, out, replay string) {
 			}
 			cases = append(cases, c)
 		}
+		hb := 1
+		if tier == "thorough" {
+			hb = 4
+		}
+		for i := 0; i < hb; i++ {
+			cases = append(cases, c18Case{WorldSeed: rng.Int63(), Subs: 1, Heartbeat: true, Repeat: 1})
+		}
 	}
 	var coq []string
 	for i, c := range cases {
@@ -247,7 +321,13 @@ func driveC18(seed int64, tier, out, replay string) {
 		obs.Evaluations++
 		obs.CaseInputs = append(obs.CaseInputs, c)
 		var traces []entryTrace
-		what := runC18(c, obs, &traces)
+		var what string
+		if c.Heartbeat {
+			what = runHeartbeat(c)
+			obs.Count("heartbeat_during_stalled_write")
+		} else {
+			what = runC18(c, obs, &traces)
+		}
 		var ts []string
 		for _, t := range traces {
 			ts = append(ts, coqTrace(t, what == "", -1))
